@@ -100,6 +100,33 @@ def observe_iterated(cls, path, override):
     return out
 
 
+def observe_iterated_change(cls, path):
+    """An un-cached ImageIterator without a per-call override (every frame is a render):
+    the instance's render method is set between two frames, then unset again; each frame is
+    rendered with the method in effect when it is rendered.  -> [(used, effective)]"""
+    from term_image.image import ImageIterator
+
+    image = cls.from_file(path, width=1, height=3)
+    out = []
+    try:
+        it = ImageIterator(image, 4, "1.1", cached=False)
+        for i in range(6):
+            if i == 2:
+                image.set_render_method("whole" if str(image._render_method).lower() == "lines" else "lines")
+            elif i == 4:
+                image.set_render_method(None)
+            frame = next(it)
+            vt = VTerm(6, 8, "konsole")
+            vt.feed(frame)
+            n = len(vt.placements) + (0 if vt.placements else len(vt.images))
+            eff = str(image._render_method).lower()
+            out.append(("lines" if n == 3 else "whole" if n == 1 else "?%d" % n, "whole" if eff == "anim" else eff))
+        it.close()
+    finally:
+        image.close()
+    return out
+
+
 def run_history(seed, res, env, steps):
     from PIL import Image
     from term_image.exceptions import StyleError
@@ -333,6 +360,12 @@ def run_history(seed, res, env, steps):
                         want_pf = 3 if ov == "lines" else 1
                         if per_frame != want_pf:
                             fail("method-override", "%s: animated draw(method=%r) wrote %s image commands per frame, the override asks for %d (effective method %s)" % (nm, ov, per_frame, want_pf, eff(n, "method")))
+                            return
+                    if isinstance(n, type) and anim_file and step % 9 == 6:
+                        used = observe_iterated_change(n, anim_file)
+                        res.count("iterations with the render method changed between two frames")
+                        if any(u != e for u, e in used):
+                            fail("method-used", "%s: frames of an un-cached ImageIterator were rendered with %s while the effective method was %s (set on the instance before the third frame, unset before the fifth)" % (nm, [u for u, _ in used], [e for _, e in used]))
                             return
                     if isinstance(n, type) and anim_file and step % 9 == 4:
                         ov = rnd.choice(["lines", "whole"])
